@@ -49,6 +49,15 @@ fn main() {
             let n: usize = args[6].parse().expect("nshards");
             core::run_shard(&p, tier, seed, i, n, std::path::Path::new(&args[7]));
         }
+        "fuzzleg" => {
+            // only the coverage-guided leg (used when validating the monitors against seeded changes): rvmon fuzzleg <Cxx> <seconds>
+            let fz = rvmon::fuzzleg::run(&args[2], args[3].parse().expect("seconds"), core::seed_from_env());
+            println!("fuzzleg {}: {} executions, {} units, {} finding(s) for it, others {:?}, notes {:?}", args[2], fz.execs, fz.new_units, fz.violations.len(), fz.other, fz.inconclusive);
+            for v in &fz.violations {
+                println!("  {} ({}x) {}", v.sig, v.count, v.case["text_debug"]);
+            }
+            std::process::exit(if fz.violations.is_empty() { 0 } else { 1 });
+        }
         "replay" => {
             let text = std::fs::read_to_string(&args[2]).expect("replay file");
             let j: serde_json::Value = serde_json::from_str(&text).expect("replay json");
@@ -69,6 +78,21 @@ fn main() {
                     std::process::exit(1);
                 }
                 "C18" => std::process::exit(c18::drive(tier)),
+                prop if j["case"]["fuzz"] == true => {
+                    // a finding of the coverage-guided leg: the recorded text through the same oracles
+                    let text = rvmon::fuzzleg::undebug(j["case"]["text_debug"].as_str().unwrap_or(""));
+                    match rvmon::fuzzleg::oracles(&text) {
+                        Some((p, class)) if p == prop => {
+                            println!("text {text:?}: {class}");
+                            println!("VIOLATION property={prop} replay={}", args[2]);
+                            std::process::exit(1);
+                        }
+                        other => {
+                            println!("replay: not reproduced on the current tree ({other:?})");
+                            std::process::exit(0);
+                        }
+                    }
+                }
                 _ => {}
             }
             let p = find(j["property"].as_str().unwrap_or(""));
